@@ -24,7 +24,8 @@ from ..paramtree import build, canon, describe, trees, tree_size
 
 INF = float('inf')
 FULL = [None, True, False, 0, 1, -1, 2 ** 63, 0.0, 1.0, 1.5, 1e-300, INF, -INF, 'inf', 'Infinity', '-inf', 'nan', 'NaN', '', 'a', 'A', '1', '1.0', 'None', 'null', 'true',
-        '[]', 'é', 'a/b', ' ', 'RED', A.Color.RED, A.Color.GREEN, A.Shade.RED, B.Color.RED, A.StrEnumLike.RED]
+        '[]', 'é', 'a/b', ' ', 'RED', A.Color.RED, A.Color.GREEN, A.Shade.RED, B.Color.RED, A.StrEnumLike.RED,
+        A.Perm.R, A.Perm.RW, A.Perm.R | A.Perm.X, A.Perm.W | A.Perm.X, A.Perm(0), A.IPerm.A | A.IPerm.B, A.IPerm(0), A.IPerm(8), A.IPerm(9)]
 SMALL = [None, True, 1, 1.0, '1', 'a', A.Color.RED, A.Shade.RED]
 TINY = [None, 1, '1', A.Color.RED]
 
